@@ -60,28 +60,65 @@ PROFILES = [
 ]
 
 
+# base profiles + the property variations that change what some setup() yields (filled by collect_profiles)
+ACTIVE = list(PROFILES)
+
+# values tried for every TXT key a protocol reads (None = key absent)
+VALUE_POOL = [None, "0", "1", "2", "0,1,2", "1,2", "true", "false", "0x0", "0x1", "0x4", "0x200", "0x40000000",
+              "0xFFFFFFFF,0x1FFFFF", "AppleTV6,2", "AudioAccessory5,1", "AirPort10,115", "9.0", "17.0", "TCP"]
+VARY_BASE = "atv4k_tvos15_hap_tunnel_auto"
+
+
+class RecDict(dict):
+    """dict that records which keys are read"""
+
+    def __init__(self, data, sink):
+        super().__init__(data)
+        self.sink = sink
+
+    def get(self, k, d=None):
+        self.sink.add(k)
+        return super().get(k, d)
+
+    def __getitem__(self, k):
+        self.sink.add(k)
+        return super().__getitem__(k)
+
+    def __contains__(self, k):
+        self.sink.add(k)
+        return super().__contains__(k)
+
+
 def profile_services(prof):
     """Per protocol: (properties, credentials) carrying the profile's model / OS / flags in every
     property the code reads them from (model, am, rpmd; osvers, ov, systembuildversion; features, ft)."""
     from pyatv.protocols.airplay.utils import AirPlayFlags
-    name, model, osv, build, fl, cred, comp, tunnel = prof
+    name, model, osv, build, fl, cred, comp, tunnel = prof[:8]
+    override = prof[8] if len(prof) > 8 else {}
     v = 0
     for n in FLAGS[fl]:
         v |= int(getattr(AirPlayFlags, n))
     feat = "0x%X,0x%X" % (v & 0xFFFFFFFF, v >> 32) if v >> 32 else "0x%X" % v
     mac = "AA:BB:CC:DD:EE:FF"
-    return {
+    out = {
         "MRP": ({"systembuildversion": build, "macaddress": mac, "allowpairing": "YES", "name": name, "modelname": model}, None),
         "DMAP": ({"ctln": name, "machine name": name, "hg": "00000000-1234-5678-9abc-def012345678"}, "0x0000000000000001"),
         "Companion": ({"rpmd": model, "rpfl": "0x36782", "rpvr": "195.2"}, comp),
         "AirPlay": ({"model": model, "osvers": osv, "features": feat, "deviceid": mac, "acl": "0", "psi": "P-1", "flags": "0x4"}, cred),
         "RAOP": ({"am": model, "ov": osv, "ft": feat, "et": "0,3,5", "tp": "UDP", "sf": "0x4", "vs": "366.0"}, cred),
     }
+    for p, kv in override.items():
+        for k, val in kv.items():
+            if val is None:
+                out[p][0].pop(k, None)
+            else:
+                out[p][0][k] = val
+    return out
 
 
-async def profile_units(prof):
+async def profile_units(prof, record=None, only_src=None):
     """Every SetupData yielded by every protocol's real setup() under the profile.
-    Returns ([unit dict with live SetupData], cleanup)."""
+    Returns ([unit dict with live SetupData], cleanup).  record: {protocol: set} collects the property keys read."""
     from ipaddress import IPv4Address
     from pyatv import conf
     from pyatv.core import MutableService, create_core
@@ -90,8 +127,12 @@ async def profile_units(prof):
     svcs = profile_services(prof)
     units, cores = [], []
     for src in PROTOS:
+        if only_src and src != only_src:
+            continue
         props, cred = svcs[src]
         svc = MutableService("verif-id", P(src), 1234, props, credentials=cred)
+        if record is not None:
+            svc._properties = RecDict(svc._properties, record.setdefault(src, set()))
         cfg = conf.AppleTV(IPv4Address("127.0.0.1"), prof[0])
         cfg.add_service(svc)
         settings = Settings()
@@ -126,15 +167,89 @@ def unit_table(u):
             "features": sorted(f.name for f in sd.features), "truthy": truthy, "subclass": sub}
 
 
+async def discover_keys():
+    """The TXT keys each protocol reads: recorded through a recording mapping while its setup() runs (and its
+    Features object answers every feature), plus the string keys its package looks up in a `properties` mapping."""
+    import re
+    from pyatv.const import FeatureName
+    from pyatv import interface
+    rec = {}
+    base = [p for p in PROFILES if p[0] == VARY_BASE][0]
+    units, cleanup = await profile_units(base, rec)
+    try:
+        for u in units:
+            f = u["sd"].interfaces.get(interface.Features)
+            for fn in FeatureName:
+                try:
+                    f.get_feature(fn)
+                except Exception:  # noqa
+                    pass
+    finally:
+        await cleanup()
+    pat = re.compile(r"""properties(?:\.get\(|\[)\s*["']([^"']+)["']|["']([^"']+)["']\s+in\s+[\w.]*properties""")
+    for p in PROTOS:
+        d = os.path.join(common.REPO, "pyatv", "protocols", p.lower())
+        for root, _, files in os.walk(d):
+            for fn in files:
+                if fn.endswith(".py"):
+                    for m in pat.finditer(open(os.path.join(root, fn)).read()):
+                        rec.setdefault(p, set()).add((m.group(1) or m.group(2)).lower() if p in ("MRP", "DMAP") else (m.group(1) or m.group(2)))
+    return {p: sorted(k for k in rec.get(p, ()) if isinstance(k, str) and len(k) < 40) for p in PROTOS}
+
+
 async def collect_profiles():
+    """Tables of the base profiles, plus one profile for every single-key variation of the service properties
+    (every key a protocol reads x VALUE_POOL) under which some setup() yields something ELSE than under any
+    profile kept so far.  Sets ACTIVE."""
     c01.quiet()
-    out = []
-    for prof in PROFILES:
-        units, cleanup = await profile_units(prof)
+    out, sigs = [], set()
+    del ACTIVE[:]
+
+    async def tables(prof, only_src=None):
+        units, cleanup = await profile_units(prof, None, only_src)
         try:
-            out.append({"name": prof[0], "units": [unit_table(u) for u in units]})
+            return [unit_table(u) for u in units]
         finally:
             await cleanup()
+    for prof in PROFILES:
+        tb = await tables(prof)
+        out.append({"name": prof[0], "units": tb})
+        sigs.add(json.dumps(tb, sort_keys=True))
+        ACTIVE.append(prof)
+    keys = await discover_keys()
+    base = [p for p in PROFILES if p[0] == VARY_BASE][0]
+    tried = refused = 0
+    part_sigs, base_parts_done = {}, {}
+    for p in PROTOS:
+        for k in keys[p]:
+            for val in VALUE_POOL:
+                tried += 1
+                prof = tuple(base[:8]) + ({p: {k: val}},)
+                prof = ("%s~%s.%s=%s" % (base[0], p, k, "absent" if val is None else val),) + prof[1:]
+                try:
+                    part = await tables(prof, p)          # only the varied protocol's setup() can differ
+                except Exception:  # noqa  the value is refused by the set-up code: not a device this check is about
+                    refused += 1
+                    continue
+                psig = json.dumps([dict(u, id=0) for u in part], sort_keys=True)
+                if psig in part_sigs.setdefault(p, set()):
+                    continue
+                part_sigs[p].add(psig)
+                if not base_parts_done.get(p):
+                    base_parts_done[p] = True       # the first one seen is compared with the base below anyway
+                try:
+                    tb = await tables(prof)
+                except Exception:  # noqa
+                    refused += 1
+                    continue
+                sg = json.dumps(tb, sort_keys=True)
+                if sg in sigs or len(ACTIVE) >= 60:
+                    continue
+                sigs.add(sg)
+                out.append({"name": prof[0].replace('"', ""), "units": tb})
+                ACTIVE.append(prof)
+    collect_profiles.info = {"keys_read": keys, "variations_tried": tried, "refused_by_setup": refused,
+                             "kept_as_profiles": [p[0] for p in ACTIVE[len(PROFILES):]]}
     return out
 
 
@@ -334,7 +449,7 @@ async def prepare_units(mode, pidx, log):
     off(id, ok) is the unit's SetupData made offline with a connect() that returns `ok`."""
     from pyatv import interface
     from pyatv.const import FeatureName, FeatureState
-    prof = PROFILES[pidx]
+    prof = ACTIVE[pidx]
     units, cleanup = await profile_units(prof)
     ifs_of = {}
     for u in units:
@@ -461,7 +576,7 @@ async def drive_real(t, mode, pidx, orders, only_features=None, scenarios=(None,
     c01.quiet()
     c01.string_kinds()          # the local files used as argument values exist
     log = []
-    prof = PROFILES[pidx]
+    prof = ACTIVE[pidx]
     units, cleanup, off = await prepare_units(mode, pidx, log)
     out = []
     try:
@@ -502,7 +617,7 @@ async def drive_usage(t, pidx, order, histories):
     c01.quiet()
     c01.string_kinds()
     log = []
-    prof = PROFILES[pidx]
+    prof = ACTIVE[pidx]
     units, cleanup, off = await prepare_units("real", pidx, log)
     out = []
     try:
@@ -566,7 +681,7 @@ async def drive_bound(t, pidx, service_sets, only_features=None):
     from pyatv.protocols import PROTOCOLS
     from pyatv.settings import Settings, MrpTunnel
     c01.quiet()
-    prof = PROFILES[pidx]
+    prof = ACTIVE[pidx]
     svcs = profile_services(prof)
     out = []
     for S in service_sets:
@@ -754,7 +869,8 @@ def run(ctx):
     ctx.note("build done %.1fs" % (time.time() - ctx.t0))
     if ctx.thorough:
         ctx.coqchk()
-    ctx.rule = ("(a) per device profile (14: service properties / credentials / tunnel setting): real FacadeAppleTV assembled "
+    ctx.rule = ("(a) per device profile (14 base profiles: service properties / credentials / tunnel setting; plus every single-key "
+                "variation - each TXT key a protocol reads x 20 values incl. absent - that changes what a setup() yields): real FacadeAppleTV assembled "
                 "from the objects every SetupData yielded by the five real setup() generators registers (classes swapped for "
                 "recording subclasses with the same override table); orders = all 31 sets of configured services (in the "
                 "order pyatv.connect adds them, or shuffled) + random sub-lists of the yielded SetupData with duplicates; "
@@ -796,6 +912,7 @@ def run(ctx):
         sigs.setdefault(json.dumps(pr["units"], sort_keys=True), k)
     reps = set(sigs.values())          # one profile per distinct table set is driven completely in the quick tier
     ctx.extra["profiles"] = [pr["name"] for pr in t["profiles"]]
+    ctx.extra["property_variations"] = getattr(collect_profiles, "info", None)
     ctx.extra["profiles_driven_completely"] = [t["profiles"][k]["name"] for k in sorted(reps)] if not ctx.thorough else "all"
     for pidx, pr in enumerate(t["profiles"]):
         full = "all" if ctx.thorough else (pidx in reps)
